@@ -82,12 +82,14 @@ type rCfg struct {
 }
 
 type rTrace struct {
-	Cfg     rCfg     `json:"cfg"`
-	Ev      []rEv    `json:"ev"`
-	Err     string   `json:"err"`
-	Workers []string `json:"workers,omitempty"` // cooperative pool schedules: the worker goroutines
-	MaxIter int64    `json:"maxiter"`
-	Arr     [][]any  `json:"arr,omitempty"` // cooperative pool schedules: every arrival [proc, point, n] in execution order
+	Cfg     rCfg           `json:"cfg"`
+	Ev      []rEv          `json:"ev"`
+	Err     string         `json:"err"`
+	Workers []string       `json:"workers,omitempty"` // cooperative pool schedules: the worker goroutines
+	MaxIter int64          `json:"maxiter"`
+	Arr     [][]any        `json:"arr,omitempty"` // cooperative pool schedules: every arrival [proc, point, n] in execution order
+	Started int64          `json:"started"`       // users-pool schedules: iterations the final totals report
+	Par     map[string]any `json:"par,omitempty"` // users-pool schedules: the parameters of spec/ContinuousPool.tla
 }
 
 type rCase struct {
